@@ -267,6 +267,14 @@ pub struct Cfg {
     /// transactions) instead of creating one per call
     #[serde(default)]
     pub reuse_writer: bool,
+    /// keep one ArroyBuilder per index for the whole run (its options are those of its first build and
+    /// stay: the builder has no way to unset one), across transactions, aborts and cancelled builds
+    #[serde(default)]
+    pub reuse_builder: bool,
+    /// with reuse_builder: the options (n_trees, split_after, available_memory) of the long-lived builder of
+    /// each index slot, fixed by the plan so that they do not depend on which build happens to run first
+    #[serde(default)]
+    pub builder_opts: Vec<(Option<usize>, Option<usize>, Option<usize>)>,
     /// number of query vectors of the query battery
     pub queries: usize,
     pub query_seed: u64,
@@ -448,7 +456,11 @@ pub fn gen_history_with(seed: u64, focus: &str, thorough: bool, forced: Option<V
         let i = r.below(pool.len() as u64) as usize;
         let index = pool.remove(i);
         let metric = if k.only_cosine { Metric::Cosine } else { *r.pick(&crate::metric::ALL_METRICS) };
-        let dim = if r.chance(k.dim1_pct, 100) {
+        let dim = if focus == "C14" && r.chance(6, 100) {
+            // one stored item larger than an OS page (the usual embedding sizes): page arithmetic of the
+            // memory-limited paths with less than one item per page
+            *r.pick(&[1022usize, 1023, 1024, 1030, 1536])
+        } else if r.chance(k.dim1_pct, 100) {
             1
         } else if r.chance(60, 100) {
             *r.pick(&[2usize, 3, 5, 8])
@@ -506,7 +518,7 @@ pub fn gen_history_with(seed: u64, focus: &str, thorough: bool, forced: Option<V
             ])
         };
         profiles.push(profile);
-        let usize_n = if big && focus == "C14" { 900 + r.below(if thorough { 1400 } else { 300 }) as usize } else if big { 300 + r.below(if thorough { 1700 } else { 500 }) as usize } else if mid { 40 + r.below(120) as usize } else { 4 + r.below(60) as usize };
+        let usize_n = if big && ic.dim > 1000 { 230 + r.below(150) as usize } else if big && focus == "C14" { 900 + r.below(if thorough { 1400 } else { 300 }) as usize } else if big { 300 + r.below(if thorough { 1700 } else { 500 }) as usize } else if mid { 40 + r.below(120) as usize } else { 4 + r.below(60) as usize };
         let uni: Vec<u32> = match r.below(10) {
             0..=5 => (0..usize_n as u32).collect(),
             6..=7 => {
@@ -758,7 +770,7 @@ pub fn gen_history_with(seed: u64, focus: &str, thorough: bool, forced: Option<V
                 };
                 // the automatic tree count grows with the dimension (up to ~dim trees): on large runs that is
                 // hundreds of MB of tree nodes per transaction; keep those runs affordable
-                let n_trees = if big && dim > 33 && n_trees.is_none() { Some(1 + r.below(8) as usize) } else { n_trees };
+                let n_trees = if big && dim > 1000 { Some(1 + r.below(3) as usize) } else if big && dim > 33 && n_trees.is_none() { Some(1 + r.below(8) as usize) } else { n_trees };
                 let mem = if scripted == Some(2) {
                     Some(match r.below(3) {
                         0 => 0,
@@ -836,6 +848,8 @@ pub fn gen_history_with(seed: u64, focus: &str, thorough: bool, forced: Option<V
             placement: r.pick(&["dense", "page", "straddle", "lmdb"]).to_string(),
             private_tmpdir: r.chance(1, 3),
             reuse_writer: r.chance(1, 2),
+            reuse_builder: false,
+            builder_opts: Vec::new(),
             queries: 3 + r.below(4) as usize,
             query_seed: r.next(),
         },
